@@ -360,6 +360,15 @@ def c07(M, ctx):
     prj = M.project
     T = len(prj.cost_list)
     total = 0
+    # every cost / state log must cover the same steps (otherwise the per-step comparison below has nothing to compare)
+    for o in list(M.workers) + list(M.facs):
+        if len(o.cost_list) != T or len(o.state_record_list) != T:
+            ctx.fail("C07:cost-log-length")
+    for o in list(M.teams) + list(M.wps) + [M.org]:
+        if len(o.cost_list) != T:
+            ctx.fail("C07:cost-log-length")
+    if "C07:cost-log-length" in ctx.fails:
+        return
     for t in range(T):
         absent_step = is_abs_step(M, t)
         org = 0
